@@ -56,6 +56,7 @@ type Box struct {
 	typ  types.Type // the named message type (not pointer)
 	lenT *Term
 	tag  string
+	alt  int // 0 = the canonical (deterministic) encoding; k > 0 = the k-th other byte string that decodes to the same message
 }
 
 type StringV struct {
